@@ -18,7 +18,9 @@ Python ↔ model  (a numpy float scalar travels as its bit pattern `b < 2^width`
   numpy.frexp(x)[1]                                               `frexpExp`
   numpy.finfo(dtype).negep                                        `negep`
   numpy.ldexp(dtype(1), k)     (correctly rounded 2^k)            `ldexpOne`
-  ulp(x)                                                          `ulp`
+  x < finfo.smallest_normal                                       `pyLtMinNormal`
+  ulp(x)  (current code, with the subnormal branch of d4402b6)    `ulp`, `ulpTail`
+  ulp(x)  before d4402b6 (regression witness only, not the code)  `ulpOld`
 
 Not part of the model: the list / ndarray dispatch branches of `diff_ulp` (they only map the
 scalar function over elements).
@@ -128,25 +130,42 @@ def negBits (f : Fmt) (b : Nat) : Nat :=
     `numpy.ldexp(dtype(1), numpy.frexp(x)[1] + numpy.finfo(dtype).negep)` -/
 def ulpPos (f : Fmt) (b : Nat) : Nat := ldexpOne f (frexpExp f b + negep f)
 
-/-- `ulp(x)`:
+/-- Python `x < numpy.finfo(dtype).smallest_normal` on a numpy float scalar (False for NaN; true for
+    every negative value, both zeros and the positive subnormals). -/
+def pyLtMinNormal (f : Fmt) (b : Nat) : Bool :=
+  !(isNaNBits f b) && ((fields f b).sign || decide (magBits f b < f.minNormalBits))
+
+/-- the part of `ulp` after the `x < 0` recursion (reached for finite `x > 0`):
+      if x < finfo.smallest_normal: return finfo.smallest_subnormal
+      return ldexp(dtype(1), frexp(x)[1] + finfo.negep) -/
+def ulpTail (f : Fmt) (b : Nat) : Nat :=
+  if pyLtMinNormal f b then 1 else ulpPos f b
+
+/-- `ulp(x)` (as of /repo commit d4402b6):
       if x == 0: return finfo.smallest_subnormal
       if isinf(x): return dtype("inf")
       if isnan(x): return dtype("nan")
       if x < 0: return ulp(-x)
+      if x < finfo.smallest_normal: return finfo.smallest_subnormal
       return ldexp(dtype(1), frexp(x)[1] + finfo.negep) -/
 def ulp (f : Fmt) (b : Nat) : Nat :=
   let v := decode f b
   if v.isZero then 1
   else if v.isInf then f.infBits
   else if v.isNaN then nanBits f
+  else if pyLt0 f b then ulpTail f (negBits f b)
+  else ulpTail f b
+
+/-- `ulp(x)` as it was BEFORE the fix d4402b6 (no subnormal branch).  Not a port of the current code:
+    kept only for the regression theorems `C14.ulp_old_*` (the defect: `ldexp` underflows to 0 on
+    every subnormal). -/
+def ulpOld (f : Fmt) (b : Nat) : Nat :=
+  let v := decode f b
+  if v.isZero then 1
+  else if v.isInf then f.infBits
+  else if v.isNaN then nanBits f
   else if pyLt0 f b then ulpPos f (negBits f b)
   else ulpPos f b
-
-/-- NOT a port of the code: the minimal repair of `ulp` that the docstring identities require
-    (`if 0 < |x| < smallest_normal: return smallest_subnormal`), used only by the theorem
-    `C14.ulp_next_repaired` to show that this one extra branch makes the identities hold everywhere. -/
-def ulpRepaired (f : Fmt) (b : Nat) : Nat :=
-  if magBits f b ≠ 0 ∧ magBits f b < f.minNormalBits then 1 else ulp f b
 
 /-! ### specification objects: neighbours and scaled values -/
 
